@@ -6,7 +6,7 @@ contract along an index path to the Spec's `modPath`.
 import NoulithModel.Lemmas.HeapOps
 
 namespace Noulith.RcHeap
-open Noulith.Store (Tree modPath pyIdx)
+open Noulith.Store (Tree modPath pyIdx LeafT keyIdx dictSlot)
 
 theorem pyIndex_eq_pyIdx (n : Nat) (i : Int) : pyIndex n i = pyIdx n i := rfl
 
@@ -17,6 +17,40 @@ theorem pyIndex_lt {n : Nat} {i : Int} {j : Nat} (h : pyIndex n i = some j) : j 
   · split at h
     · injection h with h; omega
     · cases h
+
+theorem keyPos_eq_keyIdx : ∀ (ks : List Int) (i : Int), keyPos ks i = keyIdx ks i
+  | [], _ => rfl
+  | k :: ks, i => by simp [keyPos, keyIdx, keyPos_eq_keyIdx ks i]
+
+theorem slotOf_lt {h : Heap} {id : Nat} {i : Int} {j : Nat} (hs : slotOf h id i = some j) :
+    j < (payloadOf h id).length := by
+  unfold slotOf at hs
+  split at hs
+  · exact pyIndex_lt hs
+  · split at hs
+    · split at hs
+      · injection hs with hs; omega
+      · cases hs
+    · cases hs
+
+/-- the slot an index / key addresses in a container tree -/
+def treeSlot (t : Tree) (i : Int) : Option Nat :=
+  match t.keysT with
+  | none => pyIdx t.kids.length i
+  | some ks => dictSlot ks t.kids.length i
+
+theorem slotOf_eq_treeSlot {h : Heap} {id : Nat} {t : Tree} (hk : keysOf h id = t.keysT)
+    (hlen : (payloadOf h id).length = t.kids.length) (i : Int) : slotOf h id i = treeSlot t i := by
+  unfold slotOf treeSlot
+  rw [hk, hlen]
+  cases t.keysT with
+  | none => rfl
+  | some ks => simp only [dictSlot, keyPos_eq_keyIdx]; cases keyIdx ks i <;> rfl
+
+/-- `slotOf` looks only at the keys and the payload length of the allocation -/
+theorem slotOf_congr {h h' : Heap} {id : Nat} (hk : keysOf h' id = keysOf h id)
+    (hp : (payloadOf h' id).length = (payloadOf h id).length) (i : Int) : slotOf h' id i = slotOf h id i := by
+  unfold slotOf; rw [hk, hp]
 
 theorem getD_mem {α : Type} {l : List α} {j : Nat} (d : α) (hj : j < l.length) : l.getD j d ∈ l := by
   simp [List.getD, List.getElem?_eq_getElem hj]
@@ -84,18 +118,19 @@ theorem All2.rep_of_RepN {h : Heap} {k : Nat} {vs : List Val} {ts : List Tree} (
     All2 (Rep h) vs ts := All2.mono (fun _ _ _ r => ⟨k, r⟩) a
 
 theorem Rep_ref_inv {h : Heap} {id : Nat} {t : Tree} (r : Rep h (.ref id) t) :
-    ∃ ts, t = .list ts ∧ id < h.allocs.length ∧ All2 (Rep h) (payloadOf h id) ts := by
+    t.isCont = true ∧ id < h.allocs.length ∧ keysOf h id = t.keysT ∧ t.dictWF ∧
+      All2 (Rep h) (payloadOf h id) t.kids := by
   obtain ⟨k, r⟩ := r
-  obtain ⟨k', ts, _, rfl, hl, a⟩ := RepN_ref_inv r
-  exact ⟨ts, rfl, hl, All2.rep_of_RepN a⟩
+  obtain ⟨k', _, hc, hl, hk, hw, a⟩ := RepN_ref_inv r
+  exact ⟨hc, hl, hk, hw, All2.rep_of_RepN a⟩
 
 theorem Rep_null {h : Heap} : Rep h .null .null := ⟨0, by simp⟩
 theorem Rep_int {h : Heap} (n : Int) : Rep h (.int n) (.int n) := ⟨0, by simp⟩
 
 theorem Rep_null_inv {h : Heap} {t : Tree} (r : Rep h .null t) : t = .null := by
-  obtain ⟨k, r⟩ := r; cases t <;> simp at r; rfl
+  obtain ⟨k, r⟩ := r; simpa using r
 theorem Rep_int_inv {h : Heap} {n : Int} {t : Tree} (r : Rep h (.int n) t) : t = .int n := by
-  obtain ⟨k, r⟩ := r; cases t <;> simp at r; rw [r]
+  obtain ⟨k, r⟩ := r; simpa using r
 
 /-- the contract of a slot transformer: it owns the slot value `c` and the captured values `cap`;
 afterwards it owns the new slot value, the result, and (only if it raised) still the captured values.
@@ -109,11 +144,11 @@ def LeafSpec (leaf : Heap → Val → WalkRes) (cap : List Val) (capT : List Tre
      | some (t', r) => (leaf h c).ok = true ∧ Rep (leaf h c).h (leaf h c).v t' ∧ Rep (leaf h c).h (leaf h c).r r
      | none => (leaf h c).ok = false ∧ Rep (leaf h c).h (leaf h c).v t ∧ (leaf h c).r = .null)
 
-theorem walk_nil (leaf : Heap → Val → WalkRes) (h : Heap) (v : Val) : walk leaf h v [] = leaf h v := by
+theorem walk_nil (leaf : Leaf) (h : Heap) (v : Val) : walk leaf h v [] = leaf.act h v := by
   cases v <;> rfl
 
 /-- the part of `walk` after `make_mut` and a successful bounds check -/
-def walkStep (leaf : Heap → Val → WalkRes) (h0 : Heap) (id1 j : Nat) (rest : List Int) : WalkRes :=
+def walkStep (leaf : Leaf) (h0 : Heap) (id1 j : Nat) (rest : List Int) : WalkRes :=
   ⟨setPayload (walk leaf (setPayload h0 id1 ((payloadOf h0 id1).set j .null)) ((payloadOf h0 id1).getD j .null) rest).h
       id1
       ((payloadOf (walk leaf (setPayload h0 id1 ((payloadOf h0 id1).set j .null)) ((payloadOf h0 id1).getD j .null) rest).h
@@ -123,39 +158,40 @@ def walkStep (leaf : Heap → Val → WalkRes) (h0 : Heap) (id1 j : Nat) (rest :
     (walk leaf (setPayload h0 id1 ((payloadOf h0 id1).set j .null)) ((payloadOf h0 id1).getD j .null) rest).r,
     (walk leaf (setPayload h0 id1 ((payloadOf h0 id1).set j .null)) ((payloadOf h0 id1).getD j .null) rest).ok⟩
 
-theorem walk_ref_cons (leaf : Heap → Val → WalkRes) (h : Heap) (id : Nat) (i : Int) (rest : List Int) :
+theorem walk_ref_cons (leaf : Leaf) (h : Heap) (id : Nat) (i : Int) (rest : List Int) :
     walk leaf h (.ref id) (i :: rest) =
-      (match pyIndex (payloadOf (makeMut h id).1 (makeMut h id).2).length i with
-       | none => ⟨(makeMut h id).1, .ref (makeMut h id).2, .null, false⟩
+      (match slotOf (makeMut h id).1 (makeMut h id).2 i with
+       | none => walkMissing leaf (makeMut h id).1 (makeMut h id).2 i rest
        | some j => walkStep leaf (makeMut h id).1 (makeMut h id).2 j rest) := by
   rw [walk]
-  cases pyIndex (payloadOf (makeMut h id).1 (makeMut h id).2).length i <;> rfl
+  cases slotOf (makeMut h id).1 (makeMut h id).2 i <;> rfl
 
-theorem walk_null_cons (leaf : Heap → Val → WalkRes) (h : Heap) (i : Int) (rest : List Int) :
+theorem walk_null_cons (leaf : Leaf) (h : Heap) (i : Int) (rest : List Int) :
     walk leaf h .null (i :: rest) = ⟨h, .null, .null, false⟩ := rfl
-theorem walk_int_cons (leaf : Heap → Val → WalkRes) (h : Heap) (n : Int) (i : Int) (rest : List Int) :
+theorem walk_int_cons (leaf : Leaf) (h : Heap) (n : Int) (i : Int) (rest : List Int) :
     walk leaf h (.int n) (i :: rest) = ⟨h, .int n, .null, false⟩ := rfl
 
 theorem ne_ref_of_occ_zero {id : Nat} {vs : List Val} {v : Val} (hz : occ id vs = 0) (hv : v ∈ vs) : v ≠ .ref id :=
   (occ_eq_zero_iff id vs).1 hz v hv
 
 /-- one level of `walk` below a uniquely owned allocation -/
-theorem walkStep_spec {leaf : Heap → Val → WalkRes} {cap : List Val} {capT : List Tree}
+theorem walkStep_spec {leaf : Leaf} {cap : List Val} {capT : List Tree}
     {ψ : Tree → Option (Tree × Tree)} {rest : List Int}
     (IH : LeafSpec (fun h v => walk leaf h v rest) cap capT ψ)
-    {h0 : Heap} {id1 j : Nat} {F : List Val} {ts : List Tree}
+    {h0 : Heap} {id1 j : Nat} {F : List Val} {t0 : Tree}
     (i0 : Inv h0 (.ref id1 :: (cap ++ F))) (rc1 : rcOf h0 id1 = 1)
-    (hj : j < (payloadOf h0 id1).length)
-    (a : All2 (Rep h0) (payloadOf h0 id1) ts) (rcap : All2 (Rep h0) cap capT) :
+    (hj : j < (payloadOf h0 id1).length) (hcont : t0.isCont = true) (hkeys : keysOf h0 id1 = t0.keysT)
+    (hwf : t0.dictWF)
+    (a : All2 (Rep h0) (payloadOf h0 id1) t0.kids) (rcap : All2 (Rep h0) cap capT) :
     Tr h0 (walkStep leaf h0 id1 j rest).h
       ((walkStep leaf h0 id1 j rest).v :: (walkStep leaf h0 id1 j rest).r ::
         (bif (walkStep leaf h0 id1 j rest).ok then [] else cap)) F ∧
-    (match ψ (ts.getD j .null) with
+    (match ψ (t0.kids.getD j .null) with
      | some (t', r) => (walkStep leaf h0 id1 j rest).ok = true ∧
-         Rep (walkStep leaf h0 id1 j rest).h (walkStep leaf h0 id1 j rest).v (.list (ts.set j t')) ∧
+         Rep (walkStep leaf h0 id1 j rest).h (walkStep leaf h0 id1 j rest).v (t0.withKids (t0.kids.set j t')) ∧
          Rep (walkStep leaf h0 id1 j rest).h (walkStep leaf h0 id1 j rest).r r
      | none => (walkStep leaf h0 id1 j rest).ok = false ∧
-         Rep (walkStep leaf h0 id1 j rest).h (walkStep leaf h0 id1 j rest).v (.list ts) ∧
+         Rep (walkStep leaf h0 id1 j rest).h (walkStep leaf h0 id1 j rest).v t0 ∧
          (walkStep leaf h0 id1 j rest).r = .null) := by
   obtain ⟨hz, hcf, hl⟩ := unique_facts i0 rc1
   have hcz : occ id1 cap = 0 := by simp only [occ_append] at hcf; omega
@@ -169,7 +205,7 @@ theorem walkStep_spec {leaf : Heap → Val → WalkRes} {cap : List Val} {capT :
       (i0.congr (fun k => by simp [occ_cons])) rc1 hj
     exact this.congr (fun k => by simp only [occ_cons, occ_append, List.cons_append]; omega)
   have rc : Rep (setPayload h0 id1 ((payloadOf h0 id1).set j .null)) ((payloadOf h0 id1).getD j .null)
-      (ts.getD j .null) := slot_write_rep _ hz (All2.getD j _ _ a hj) hcne
+      (t0.kids.getD j .null) := slot_write_rep _ hz (All2.getD j _ _ a hj) hcne
   have rcap1 : All2 (Rep (setPayload h0 id1 ((payloadOf h0 id1).set j .null))) cap capT :=
     All2.mono (fun cv _ hm r => slot_write_rep _ hz r (ne_ref_of_occ_zero hcz hm)) rcap
   have W := IH _ _ (.ref id1 :: F) _ i1 rc rcap1
@@ -209,8 +245,8 @@ theorem walkStep_spec {leaf : Heap → Val → WalkRes} {cap : List Val} {capT :
   dsimp only
   -- the siblings (with the slot itself nulled) in the final heap
   have sib : All2 (Rep (setPayload w.h id1 ((payloadOf w.h id1).set j w.v)))
-      ((payloadOf h0 id1).set j .null) (ts.set j .null) := by
-    have a0 : All2 (Rep h0) ((payloadOf h0 id1).set j .null) (ts.set j .null) := All2.set j a Rep_null
+      ((payloadOf h0 id1).set j .null) (t0.kids.set j .null) := by
+    have a0 : All2 (Rep h0) ((payloadOf h0 id1).set j .null) (t0.kids.set j .null) := All2.set j a Rep_null
     refine All2.mono (fun s t hs r => ?_) a0
     have hs1 : s ∈ payloadOf (setPayload h0 id1 ((payloadOf h0 id1).set j .null)) id1 := by rw [hpay1]; exact hs
     have hsne : s ≠ .ref id1 := by
@@ -223,11 +259,14 @@ theorem walkStep_spec {leaf : Heap → Val → WalkRes} {cap : List Val} {capT :
   have hpay3 : payloadOf (setPayload w.h id1 ((payloadOf w.h id1).set j w.v)) id1 = (payloadOf h0 id1).set j w.v := by
     rw [payloadOf_setPayload]; simp [hlw, hset]
   have hl3 : id1 < (setPayload w.h id1 ((payloadOf w.h id1).set j w.v)).allocs.length := by simpa using hlw
+  have hkeys3 : keysOf (setPayload w.h id1 ((payloadOf w.h id1).set j w.v)) id1 = t0.keysT := by
+    rw [keysOf_setPayload, Wtr.stable.keys id1 (by simpa using hl) (.root (by simp)), keysOf_setPayload, hkeys]
   have repv : ∀ t', Rep w.h w.v t' →
-      Rep (setPayload w.h id1 ((payloadOf w.h id1).set j w.v)) (.ref id1) (.list (ts.set j t')) := by
+      Rep (setPayload w.h id1 ((payloadOf w.h id1).set j w.v)) (.ref id1) (t0.withKids (t0.kids.set j t')) := by
     intro t' rv
-    apply Rep_ref_list hl3
-    rw [hpay3]
+    apply Rep_ref_cont (Tree.withKids_isCont _ hcont) hl3 (by rw [Tree.withKids_keysT]; exact hkeys3)
+      (Tree.dictWF_withKids hwf (by simp))
+    rw [hpay3, Tree.withKids_kids _ hcont]
     have := All2.set j sib (slot_write_rep ((payloadOf w.h id1).set j w.v) hzw rv hvne)
     simpa [List.set_set] using this
   refine ⟨⟨?_, ?_, ?_⟩, ?_⟩
@@ -244,23 +283,23 @@ theorem walkStep_spec {leaf : Heap → Val → WalkRes} {cap : List Val} {capT :
       (by rw [rcOf_setPayload]; simp only [occ_cons]; omega)
     rw [rcOf_setPayload] at this
     exact this
-  · cases hψ : ψ (ts.getD j .null) with
+  · cases hψ : ψ (t0.kids.getD j .null) with
     | none =>
       rw [hψ] at Wrep
       dsimp only at Wrep ⊢
       refine ⟨Wrep.1, ?_, Wrep.2.2⟩
       have := repv _ Wrep.2.1
-      rwa [set_getD_self] at this
+      rwa [set_getD_self, Tree.withKids_self] at this
     | some tr =>
       obtain ⟨t', r⟩ := tr
       rw [hψ] at Wrep
       dsimp only at Wrep ⊢
       exact ⟨Wrep.1, repv _ Wrep.2.1, slot_write_rep _ hzw Wrep.2.2 hrne⟩
 
-theorem modPath_nil (φ : Tree → Option (Tree × Tree)) (t : Tree) : modPath φ t [] = φ t := by
+theorem modPath_nil (φ : LeafT) (t : Tree) : modPath φ t [] = φ.act t := by
   cases t <;> rfl
 
-theorem modPath_list_cons (φ : Tree → Option (Tree × Tree)) (ts : List Tree) (i : Int) (rest : List Int) :
+theorem modPath_list_cons (φ : LeafT) (ts : List Tree) (i : Int) (rest : List Int) :
     modPath φ (.list ts) (i :: rest) =
       (match pyIdx ts.length i with
        | none => none
@@ -273,11 +312,82 @@ theorem modPath_list_cons (φ : Tree → Option (Tree × Tree)) (ts : List Tree)
   | none => rfl
   | some j => dsimp only; cases modPath φ (ts.getD j .null) rest <;> rfl
 
+/-- the Spec side of a missing slot: an index assignment whose last index is a new dict key inserts it -/
+def modMissing (φ : LeafT) (t : Tree) (i : Int) (rest : List Int) : Option (Tree × Tree) :=
+  match t.keysT, rest, φ.ins with
+  | some ks, [], some new => some (.dict (ks ++ [i]) (t.kids ++ [new]), .null)
+  | _, _, _ => none
+
+/-- `modPath` on a container, uniformly for lists and dicts -/
+theorem modPath_cont_cons (φ : LeafT) {t : Tree} (hc : t.isCont = true) (i : Int) (rest : List Int) :
+    modPath φ t (i :: rest) =
+      (match treeSlot t i with
+       | some j =>
+         match modPath φ (t.kids.getD j .null) rest with
+         | none => none
+         | some (t', r) => some (t.withKids (t.kids.set j t'), r)
+       | none => modMissing φ t i rest) := by
+  cases t with
+  | null => simp at hc
+  | int n => simp at hc
+  | list ts =>
+    rw [modPath_list_cons]
+    simp only [treeSlot, Tree.keysT_list, Tree.kids_list, Tree.withKids_list]
+    cases pyIdx ts.length i with
+    | none => simp [modMissing]
+    | some j => rfl
+  | dict ks vs =>
+    simp only [treeSlot, Tree.keysT_dict, Tree.kids_dict, Tree.withKids_dict]
+    cases hds : dictSlot ks vs.length i with
+    | none =>
+      simp only [modMissing, Tree.keysT_dict, Tree.kids_dict]
+      cases rest <;> cases hi : φ.ins <;> simp [modPath, hds, hi]
+    | some j =>
+      dsimp only
+      simp only [modPath, hds]
+      cases modPath φ (vs.getD j .null) rest <;> rfl
+
+theorem frame_rep {h : Heap} {id : Nat} (a : Alloc) (hz : pocc id h = 0) {v : Val} {t : Tree}
+    (r : Rep h v t) (hne : v ≠ .ref id) : Rep (setAlloc h id a) v t := by
+  obtain ⟨k, r⟩ := r
+  exact ⟨k, RepN_frame a hz r hne⟩
+
+/-- replacing a uniquely owned allocation (payload and keys; same count): the handles of the new
+payload come from the old payload and the owned inputs -/
+theorem replace_alloc {m : Heap} {id1 : Nat} {ins outs F : List Val} (a : Alloc) (ha : a.rc = rcOf m id1)
+    (i : Inv m (.ref id1 :: ins ++ F)) (rc1 : rcOf m id1 = 1)
+    (hocc : ∀ k, occ k a.payload + occ k outs = occ k (payloadOf m id1) + occ k ins) :
+    Tr m (setAlloc m id1 a) (.ref id1 :: outs) F := by
+  obtain ⟨hz, hf, hl⟩ := unique_facts i rc1
+  have hf' : occ id1 ins + occ id1 F = 0 := by rw [← occ_append]; exact hf
+  have hfz : occ id1 F = 0 := by omega
+  refine ⟨fun k => ?_, Stable.setAlloc _ (not_reach_of_zero hz hfz), fun k _ _ => ?_⟩
+  · have hk := i k
+    have e1 := pocc_setAlloc m id1 k a hl
+    have e2 := hocc k
+    rw [rcOf_setAlloc]
+    simp only [occ_cons, occ_append, List.cons_append] at hk ⊢
+    by_cases e : k = id1
+    · subst e; simp only [hl, and_self, if_true, ha]; omega
+    · simp only [e, false_and, if_false]; omega
+  · rw [rcOf_setAlloc]
+    by_cases e : k = id1
+    · subst e; simp [hl, ha]
+    · simp [e]
+
+/-- how the inserted value of the Impl leaf and of the Spec leaf relate to the captured values -/
+def InsSpec (li : Option Val) (ti : Option Tree) (cap : List Val) (capT : List Tree) : Prop :=
+  match li, ti with
+  | none, none => True
+  | some new, some tn => cap = [new] ∧ capT = [tn]
+  | _, _ => False
+
 /-- **`walk` lifts a leaf contract along an index path**: `set_index` / `modify_existing_index` with
-`make_mut` at every level computes exactly the Spec's `modPath` on the represented tree, preserves the
-count invariant, and touches nothing reachable from the frame. -/
-theorem walk_spec {leaf : Heap → Val → WalkRes} {cap : List Val} {capT : List Tree}
-    {φ : Tree → Option (Tree × Tree)} (L : LeafSpec leaf cap capT φ) :
+`make_mut` at every level computes exactly the Spec's `modPath` on the represented tree (lists and
+dicts, insertion of a new key at the last level included), preserves the count invariant, and touches
+nothing reachable from the frame. -/
+theorem walk_spec {leaf : Leaf} {cap : List Val} {capT : List Tree}
+    {φ : LeafT} (L : LeafSpec leaf.act cap capT φ.act) (LI : InsSpec leaf.ins φ.ins cap capT) :
     ∀ path : List Int, LeafSpec (fun h v => walk leaf h v path) cap capT (fun t => modPath φ t path) := by
   intro path
   induction path with
@@ -298,33 +408,90 @@ theorem walk_spec {leaf : Heap → Val → WalkRes} {cap : List Val} {capT : Lis
       rw [walk_int_cons]
       exact ⟨Tr.refl (i.congr (fun k => by simp [occ_cons, occ_append])), rfl, r, rfl⟩
     | ref id =>
-      obtain ⟨ts, rfl, hl, a⟩ := Rep_ref_inv r
+      obtain ⟨hc, hl, hk, hw, a⟩ := Rep_ref_inv r
       have MS := makeMut_spec (h := h) (id := id) (F := cap ++ F) (i.congr (fun k => by simp [occ_cons, occ_append]))
-      have a0 : All2 (Rep (makeMut h id).1) (payloadOf (makeMut h id).1 (makeMut h id).2) ts := by
+      have a0 : All2 (Rep (makeMut h id).1) (payloadOf (makeMut h id).1 (makeMut h id).2) t.kids := by
         rw [MS.pay]
         exact All2.mono (fun _ _ _ r => r.ext MS.ext) a
       have rcap0 : All2 (Rep (makeMut h id).1) cap capT := All2.mono (fun _ _ _ r => r.ext MS.ext) rcap
-      have hlen : (payloadOf (makeMut h id).1 (makeMut h id).2).length = ts.length := All2.length_eq a0
-      rw [walk_ref_cons, modPath_list_cons, hlen, pyIndex_eq_pyIdx]
-      cases hp : pyIdx ts.length ix with
+      have hlen : (payloadOf (makeMut h id).1 (makeMut h id).2).length = t.kids.length := All2.length_eq a0
+      have hk0 : keysOf (makeMut h id).1 (makeMut h id).2 = t.keysT := by rw [MS.keys]; exact hk
+      have i0 : Inv (makeMut h id).1 (.ref (makeMut h id).2 :: (cap ++ F)) :=
+        MS.tr.inv.congr (fun k => by simp [occ_cons, occ_append])
+      rw [walk_ref_cons, modPath_cont_cons φ hc, slotOf_eq_treeSlot hk0 hlen]
+      cases hp : treeSlot t ix with
       | none =>
         dsimp only
-        refine ⟨?_, rfl, Rep_ref_list MS.lt a0, rfl⟩
-        have := MS.tr.to_outs
-        exact this.outs_congr (fun k => by simp [occ_cons, occ_append])
+        -- failure unless this is an index assignment of a new key at the last level
+        have fail : Tr h (makeMut h id).1 (.ref (makeMut h id).2 :: .null :: cap) F ∧
+            Rep (makeMut h id).1 (.ref (makeMut h id).2) t :=
+          ⟨MS.tr.to_outs.outs_congr (fun k => by simp [occ_cons, occ_append]),
+           Rep_ref_cont hc MS.lt hk0 hw a0⟩
+        unfold walkMissing modMissing
+        rw [hk0]
+        cases hkt : t.keysT with
+        | none => exact ⟨fail.1, rfl, fail.2, rfl⟩
+        | some ks =>
+          cases rest with
+          | cons i2 r2 => exact ⟨fail.1, rfl, fail.2, rfl⟩
+          | nil =>
+            unfold InsSpec at LI
+            cases hli : leaf.ins with
+            | none =>
+              rw [hli] at LI
+              cases hti : φ.ins with
+              | none => exact ⟨fail.1, rfl, fail.2, rfl⟩
+              | some tn => rw [hti] at LI; exact absurd LI (by simp)
+            | some new =>
+              rw [hli] at LI
+              cases hti : φ.ins with
+              | none => rw [hti] at LI; exact absurd LI (by simp)
+              | some tn =>
+                rw [hti] at LI
+                obtain ⟨rfl, rfl⟩ := LI
+                dsimp only
+                have rnew : Rep (makeMut h id).1 new tn := by simpa using rcap0
+                obtain ⟨hz, hcf, hl0⟩ := unique_facts i0 MS.rc1
+                have hnne : new ≠ .ref (makeMut h id).2 := by
+                  intro e; rw [e] at hcf; simp [occ_cons_ref, occ_append] at hcf
+                have R : Tr (makeMut h id).1 (setEntries (makeMut h id).1 (makeMut h id).2
+                    (payloadOf (makeMut h id).1 (makeMut h id).2 ++ [new]) (ks ++ [ix]))
+                    (.ref (makeMut h id).2 :: []) F :=
+                  replace_alloc (ins := [new]) (outs := []) (F := F)
+                    ⟨payloadOf (makeMut h id).1 (makeMut h id).2 ++ [new], rcOf (makeMut h id).1 (makeMut h id).2,
+                      some (ks ++ [ix])⟩ rfl i0 MS.rc1 (fun k => by simp [occ_append])
+                have hteq : t = .dict ks t.kids := by
+                  cases t with
+                  | null => simp at hc
+                  | int n => simp at hc
+                  | list ts => simp at hkt
+                  | dict ks' vs => simp at hkt; simp [hkt]
+                refine ⟨⟨R.inv.congr (fun k => by simp [occ_cons]), ?_, fun k hpk hle => ?_⟩, rfl, ?_, Rep_null⟩
+                · exact (MS.tr.stable.mono (by intro v hv; simp [hv])).trans R.stable
+                · have e1 := MS.tr.tight k hpk (by simp only [occ_append]; omega)
+                  have := R.tight k (by omega) (by omega)
+                  omega
+                · have hwl : ks.length = t.kids.length := hw ks hkt
+                  apply Rep_ref_dict (h := setEntries _ _ _ _) (by simpa using MS.lt)
+                  · rw [keysOf_setEntries]; simp [hl0]
+                  · simp [hwl]
+                  · rw [payloadOf_setEntries]; simp only [hl0, and_self, if_true]
+                    refine All2.append ?_ ?_
+                    · exact All2.mono (fun s _ hs r => frame_rep _ hz r (ne_ref_of_pocc_zero hz hs)) a0
+                    · simp only [All2.cons_cons, All2.nil_nil, and_true]
+                      exact frame_rep _ hz rnew hnne
       | some j =>
         dsimp only
-        have hj : j < (payloadOf (makeMut h id).1 (makeMut h id).2).length := by
-          rw [hlen]; exact pyIndex_lt (by rw [pyIndex_eq_pyIdx]; exact hp)
-        have S := walkStep_spec (F := F) ih (MS.tr.inv.congr (fun k => by simp [occ_cons, occ_append]))
-          MS.rc1 hj a0 rcap0
+        have hj : j < (payloadOf (makeMut h id).1 (makeMut h id).2).length :=
+          slotOf_lt (by rw [slotOf_eq_treeSlot hk0 hlen]; exact hp)
+        have S := walkStep_spec (F := F) ih i0 MS.rc1 hj hc hk0 hw a0 rcap0
         obtain ⟨Str, Srep⟩ := S
         refine ⟨?_, ?_⟩
         · refine ⟨Str.inv, (MS.ext.stable F).trans Str.stable, fun k hpk hle => ?_⟩
           have e1 := MS.tr.tight k hpk (by simp only [occ_append]; omega)
           have := Str.tight k (by omega) (by omega)
           omega
-        · cases hψ : modPath φ (ts.getD j .null) rest with
+        · cases hψ : modPath φ (t.kids.getD j .null) rest with
           | none => rw [hψ] at Srep; exact Srep
           | some tr => obtain ⟨t', r'⟩ := tr; rw [hψ] at Srep; exact Srep
 
